@@ -198,7 +198,7 @@ func checkBytes(col *vt.C, kind, format string, data []byte, script any) (decode
 		}
 		return true, f
 	}
-	_, _, f = checkValue(col, c, v, false, script)
+	_, _, f = checkValue(col, c, v, script)
 	return true, f
 }
 
